@@ -14,7 +14,7 @@ PROPERTY = 'C09'
 LEVEL = 'exploration'
 CASE_GUARD_S = {'quick': 300, 'thorough': 3600}  # a case is a composite (a block of expressions x all texts, ...)
 CHUNK = 40
-RULE = ('strings of 1..3 adjacent fragments (form naked/soft/hard x content from a 17-element family over {a, space, both quote characters, @[S]@, @[, ]@, '
+RULE = ('tokens referring to a LIST symbol (13 forms: naked / soft / hard / combined, empty and one-element lists) as program argument, list element, file contents; strings of 1..3 adjacent fragments (form naked/soft/hard x content from a 17-element family over {a, space, both quote characters, @[S]@, @[, ]@, '
         'an ill-formed reference, #, backslash, non-ASCII, =, :, (, option-like, <<, :>}) x follower {end of line, end of file, a second argument, `)`, list continuation} x '
         'context {program argument, file contents, list element}; every splitting of fixed strings into differently quoted fragments; text-until-end-of-line forms; here-documents: '
         '3 markers x bodies of <= 3 lines over 8 line kinds x {terminated, terminator last without newline, missing terminator}; unterminated quotes at every position; '
@@ -153,6 +153,9 @@ def cases(tier):
     for i in range(len(RICH)):
         yield ('rich', i)
     yield ('unterminated',)
+    for i in range(len(LISTREF)):
+        for ctx in ('argv', 'list', 'file'):
+            yield ('listref', i, ctx)
 
 
 def run(case) -> Result:
@@ -174,7 +177,71 @@ def run(case) -> Result:
         _rich(res, case)
     elif k == 'unterminated':
         _unterminated(res, case)
+    elif k == 'listref':
+        _listref(res, case)
     return res
+
+
+# a token that refers to a LIST symbol: only the naked token that is nothing but the reference is spliced element by element;
+# quoted or combined with anything else it is ONE string (elements joined by single spaces); hard quotes do not substitute
+#   (source token, elements it contributes to an argument list / list, or None if it contributes a single string given by [2], single string)
+LISTREF = [
+    ('@[LST]@', ['e1', 'e 2'], 'e1 e 2'),
+    ('"@[LST]@"', None, 'e1 e 2'),
+    ("'@[LST]@'", None, '@[LST]@'),
+    ('"-@[LST]@"', None, '-e1 e 2'),
+    ('-@[LST]@', None, '-e1 e 2'),
+    ('@[LST]@@[LST]@', None, 'e1 e 2e1 e 2'),
+    ('"@[LST]@ @[S]@"', None, 'e1 e 2 VAL'),
+    ('@[NOL]@', [], ''),
+    ('"@[NOL]@"', None, ''),
+    ('"@[ONE]@"', None, 'only'),
+    ('@[ONE]@', ['only'], 'only'),
+    ('"@[LL]@"', None, 'e1 e 2 z'),
+    ('@[LL]@', ['e1', 'e 2', 'z'], 'e1 e 2 z'),
+]
+
+
+def _listref(res, case):
+    _, i, ctx = case
+    tok, elems, one = LISTREF[i]
+    pre = "[setup]\ndef string S = 'VAL'\ndef list LST = e1 'e 2'\ndef list NOL =\ndef list ONE = only\ndef list LL = @[LST]@ z\n"
+    seen = {}
+
+    def hook(rec):
+        if rec['name'] == 'reader':
+            try:
+                with open(os.path.join(rec['cwd'], 'f.txt'), newline='') as f:
+                    seen['text'] = f.read()
+            except OSError as ex:
+                seen['text'] = 'ERR %s' % ex
+
+    contrib = elems if elems is not None else [one]
+    if ctx == 'file' and elems is not None:
+        # a naked token that is nothing but a reference is, as a TEXT-SOURCE, a reference to a text-source / string symbol: a list is a type error (C08)
+        res.stats['not a string in this context'] += 1
+        return
+    if ctx == 'argv':
+        case_ = pre + 'run %% probe first %s last\n[act]\n' % tok
+        want = ['first'] + contrib + ['last']
+    elif ctx == 'list':
+        case_ = pre + 'def list Q = first %s last\nrun %% probe @[Q]@\n[act]\n' % tok
+        want = ['first'] + contrib + ['last']
+    else:
+        case_ = pre + 'file f.txt = %s\nrun %% reader\n[act]\n' % tok
+        want = one
+    o, calls = _run_case(case_, hook)
+    if ctx == 'file':
+        got = seen.get('text')
+    else:
+        pc = [c for c in calls if c['name'] == 'probe']
+        got = pc[0]['args'][1:] if pc else None
+    res.n += 1
+    res.nontrivial += 1
+    res.outcomes[('listref', ctx, o.ident)] += 1
+    if o.ident != 'PASS' or got != want:
+        res.violation(case, ['%s: the token `%s` (LST = e1 \'e 2\', NOL empty, ONE = only, LL = @[LST]@ z) denotes %r; observed %r, outcome %s / %s' % (
+            ctx, tok, want, got, o.ident, ' / '.join(cli.stderr_lines(o.err)[-3:])[:300])], {'file': case_})
 
 
 def _run_case(text, hook=None):
